@@ -14,7 +14,7 @@ ASSUMPTIONS = [
     "refused calls are compared on exception class only (their post-state is C03's business)",
 ]
 GATES = [
-    "mon.C02.deep_chain",
+    "mon.C02.deep_chain", "mon.C02.wide_node",
     "mon.C02.model", "C02.expected.ok", "C02.expected.noop", "C02.expected.TreeError", "C02.expected.LoopError",
     "move.leaving_2plus_siblings", "move.between_trees", "setchildren.steals_from_other_parent",
     "setchildren.reorders_or_keeps_some", "setchildren.takes_descendant", "ctor.cases", "mon.C02.reentrant",
@@ -32,9 +32,17 @@ def run(ctx):
 
     ctor.run(ctx)
     deepchain.run(ctx, "C02")
+    from . import widenode
+
+    widenode.run(ctx, "C02")
 
 
 def replay(ctx, wit):
+    if wit.get("case", {}).get("wide_node"):
+        from . import widenode
+
+        ctx.case(("replay",))
+        return widenode.run(ctx, "C02")
     if wit.get("case", {}).get("deep_chain"):
         from . import deepchain
 
